@@ -202,6 +202,8 @@ def execute_op(segno, spec, ctx):
                 kw.pop('micro')
             try:
                 q2 = getattr(segno, ms['fn'])(core.dec(ms['content']), **kw)
+            except MemoryError:
+                raise   # an injected allocation failure is a fault of the run, not a refusal by the library
             except Exception as ex:  # noqa -- the symbol exists, so re-encoding it with its own reported parameters must not be refused
                 return {'ok': {'same': False, 'a': sym_summary(q), 'b': {'raised': [type(ex).__name__, str(ex)]}}}, None
             return {'ok': {'same': matrix_bytes(q2) == matrix_bytes(q), 'a': sym_summary(q), 'b': sym_summary(q2)}}, None
